@@ -133,6 +133,36 @@ def build_traces(path, tier, seed):
             scale = abs(al) * float(np.max(np.abs(x))) + abs(be) * float(np.max(np.abs(b)))
             add({"kind": "rel", "law": "lin", "clause": "FilterLinear", "tol": enc(1e-8), "scale": enc(scale), "f": enc(al), "g": enc(be),
                  "x": enc_seq(outs[0]), "y": enc_seq(outs[1]), "z": enc_seq(outs[2])}, {"kind": "rel", "law": "FilterLinear", "ftype": ftype, "order": order, "n": n})
+    # --- long-period corners on finely sampled long records: f_c*dt down to 1e-4 (orders 1-2; 3 for low / high pass),
+    #     record >= 25 periods of the slowest of (corner, sinusoid)
+    for j in range(9 if tier == "quick" else 60):
+        dt = [0.01, 0.005, 0.02][j % 3]
+        ftype = ["high", "band", "low"][(j // 3) % 3]
+        order = int(rng.integers(1, 4 if ftype != "band" else 3))
+        fc = float(10.0 ** rng.uniform(-4, -2.4)) / dt
+        f = float(fc * [0.5, 1.0, 2.0, 0.75, 1.5][j % 5])
+        n = int(min(2 ** 17, max(4000, 30.0 / (min(f, fc) * dt))))
+        if n * dt * min(f, fc) < 25:
+            fc = 26.0 / (n * dt) / min(1.0, f / fc)
+            f = float(fc * [0.5, 1.0, 2.0, 0.75, 1.5][j % 5])
+        cut = {"high": (fc, None), "band": (fc, min(50 * fc, 0.4 / dt)), "low": (None, fc)}[ftype]
+        t = np.arange(n) * dt
+        x = float(10.0 ** rng.uniform(-1, 1)) * np.sin(2 * np.pi * f * t + float(rng.uniform(0, 6.28)))
+        cls = eqsig.AccSignal if j % 2 else eqsig.Signal
+        o = cls(x.copy(), dt)
+        kw = {"filter_order": order}
+        if j % 4 == 1:
+            kw["remove_gibbs"] = "mid"
+        with warnings.catch_warnings():
+            warnings.simplefilter("ignore")
+            o.butter_pass(list(cut) if j % 2 else cut, **kw)
+        y = np.asarray(o.values, dtype=float)
+        sel = np.linspace(n // 4, (3 * n) // 4 - 1, 200).astype(int)
+        add({"kind": "gain", "dt": enc(dt), "n": n, "ftype": ftype, "order": order, "f1": enc(cut[0] if cut[0] is not None else 0.0),
+             "f2": enc(cut[1] if cut[1] is not None else 0.0), "f": enc(f), "raised": False, "dtout": enc(float(o.dt)), "nout": int(o.npts),
+             "x": enc_seq(x[sel]), "y": enc_seq(y[sel] if len(y) == n else [])},
+            {"kind": "gain", "family": "long-period corner", "ftype": ftype, "order": order, "cut_off": [cut[0], cut[1]], "fc*dt": fc * dt, "f": f, "dt": dt, "n": n,
+             "remove_gibbs": kw.get("remove_gibbs")})
     # --- call history: a low-pass and a high-pass with the SAME order and cut-off one after the other (either order),
     #     on the same and on different objects (what Cluster.combine_motions does)
     for j in range(4 if tier == "quick" else 24):
@@ -180,11 +210,13 @@ def build_traces(path, tier, seed):
             fn = "fns.generic.remove_poly"
         add({"kind": "detrend", "deg": d, "x": enc_seq(x), "y": enc_seq(y), "y2": enc_seq(y2), "yp": enc_seq(yp), "pscale": enc(6.75 * float(np.max(np.abs(x)) + 1))}, {"kind": "detrend", "fn": fn, "n": n, "deg": d, "shape": shape})
     # --- adding
-    nadd = 24 if tier == "quick" else 150
+    nadd = 72 if tier == "quick" else 360
     for i in range(nadd):
         n = int(rng.integers(1, 200))
         dt = 0.01
-        x = rng.standard_normal(n) * 10.0 ** rng.uniform(-3, 3)
+        # the unit of the record and of what is added: ordinary, nano-units (baseline corrections), raw counts, or a zero addend
+        u = float(rng.choice([1.0, 1.0, 1e-9, 1e-12, 1e5, 0.0]))
+        x = rng.standard_normal(n) * (10.0 ** rng.uniform(-3, 3) if u in (1.0, 0.0) else u)
         cls = eqsig.AccSignal if i % 2 else eqsig.Signal
         o = cls(x.copy() if i % 3 else np.round(x).astype(np.int64), dt)
         x0 = np.asarray(o.values, dtype=float)
@@ -193,30 +225,30 @@ def build_traces(path, tier, seed):
         inc = np.zeros(n)
         try:
             if k == 0:
-                c = float(rng.uniform(-5, 5))
+                c = float(rng.uniform(-5, 5)) * u
                 o.add_constant(c)
                 inc = np.full(n, c)
             elif k == 1:
-                s = rng.standard_normal(n)
+                s = rng.standard_normal(n) * u
                 o.add_series(s if i % 4 else s.tolist())
                 inc = s
             elif k == 2:
-                s = rng.standard_normal(n)
+                s = rng.standard_normal(n) * u
                 o.add_signal(eqsig.Signal(s, dt) if i % 4 else eqsig.AccSignal(s, dt))
                 inc = s
             elif k == 3:
                 must = True
-                o.add_series(rng.standard_normal(n + int(rng.choice([-1, 1, 5])) if n > 1 else n + 1))
+                o.add_series(rng.standard_normal(n + int(rng.choice([-1, 1, 5])) if n > 1 else n + 1) * u)
             elif k == 4:
                 must = True
-                o.add_signal(eqsig.Signal(rng.standard_normal(n), dt * float(rng.choice([0.5, 2.0, 1.0000001]))))
+                o.add_signal(eqsig.Signal(rng.standard_normal(n) * u, dt * float(rng.choice([0.5, 2.0, 1.0000001]))))
             else:
                 must = True
-                o.add_signal(eqsig.Signal(rng.standard_normal(n + 1), dt) if i % 2 else rng.standard_normal(n))
+                o.add_signal(eqsig.Signal(rng.standard_normal(n + 1) * u, dt) if i % 2 else rng.standard_normal(n) * u)
         except exceptions.SignalProcessingError:
             raised = True
         add({"kind": "add", "x": enc_seq(x0), "inc": enc_seq(inc), "y": enc_seq(np.asarray(o.values, dtype=float)), "raised": raised, "must_raise": must},
-            {"kind": "add", "op": ["add_constant", "add_series", "add_signal", "add_series(wrong length)", "add_signal(wrong dt)", "add_signal(wrong length / not a signal)"][k], "n": n, "raised": raised})
+            {"kind": "add", "op": ["add_constant", "add_series", "add_signal", "add_series(wrong length)", "add_signal(wrong dt)", "add_signal(wrong length / not a signal)"][k], "n": n, "raised": raised, "unit": u})
     # --- running average, widths 1..25
     nrun = 30 if tier == "quick" else 250
     for i in range(nrun):
